@@ -679,7 +679,9 @@ Next:
           }
         }
         else {
-          if (ASMJIT_UNLIKELY(!common_info.has_avx512_sae())) {
+          // {sae} alone cannot be encoded by an instruction that has embedded rounding: EVEX.b selects {er} there and L'L is the
+          // rounding mode, so a lone {sae} would silently become {rn-sae}.
+          if (ASMJIT_UNLIKELY(!common_info.has_avx512_sae() || common_info.has_avx512_er())) {
             return make_error(Error::kInvalidEROrSAE);
           }
         }
